@@ -53,7 +53,7 @@ def mk_readout(times, start, nd, built):
     r.times = times; r.start_time = start; r.non_destructive = nd
     return r
 for non_destructive, built in ((False, 'constructor'), (True, 'constructor'), (True, 'setters'), (False, 'setters')):
-    for times, start in (([1.0, 2.5, 4.0, 7.0], 0.5), ([0.5], 0.0), ([2.0, 3.0], -1.0)):
+    for times, start in (([1.0, 2.5, 4.0, 7.0], 0.5), ([0.5], 0.0), ([2.0, 3.0], -1.0), ([2.0], 0.5), ([10.0], 9.0)):
         VP.LOG.clear()
         det = VP.detector(adc_bit_resolution=16, adc_voltage_range=(0.0, 10.0))
         det.photon.array = np.full((3, 4), 9.0); det.pixel.array = np.full((3, 4), 5.0); det.signal.array = np.full((3, 4), 1.0)
@@ -101,7 +101,8 @@ import numpy as np
 from pyxel.detectors import ReadoutProperties
 VIOLATED, DETAIL = False, ''
 cases = [([1, 2, 2], 0.0), ([0.0, 1.0], -1.0), ([1.0, 2.0], 1.0), ([1.0, 2.0], 3.0), ([3.0, 2.0, 4.0], 0.0), ([[1.0, 2.0]], 0.0), ([1.0, 2.0, 4.0], 0.5), ([-2.0, -1.0], -3.0),
-         ([1e-9, 3e-9, 4e-9], 0.0), ([2e-9, 3e-9, 5e-9, 6e-9, 9e-9], 1e-9), ([1.0, 2.000005, 3.000005, 4.000005], 0.0), ([1e6, 1e6 + 1, 1e6 + 3], 0.0)]
+         ([1e-9, 3e-9, 4e-9], 0.0), ([2e-9, 3e-9, 5e-9, 6e-9, 9e-9], 1e-9), ([1.0, 2.000005, 3.000005, 4.000005], 0.0), ([1e6, 1e6 + 1, 1e6 + 3], 0.0),
+         ([2.0], 0.5), ([5.0], -1.0), ([10.0], 9.0), ([1.0], 0.0)]
 for times, start in cases:
     t = np.array(times, dtype=float)
     valid = t.ndim == 1 and t.size >= 1 and t[0] != 0 and start < t[0] and bool(np.all(np.diff(t) > 0))
@@ -360,7 +361,8 @@ READOUT_REPLAY = lambda w: {"code": """
 import numpy as np
 from pyxel.exposure import Readout
 VIOLATED, DETAIL = False, ''
-cases = [([1, 2, 2], 0.0), ([0.0, 1.0], -1.0), ([1.0, 2.0], 1.0), ([1.0, 2.0], 3.0), ([3.0, 2.0, 4.0], 0.0), ([1.0, 2.0, 4.0], 0.5), ([-2.0, -1.0], -3.0), ([1e-9, 3e-9, 4e-9], 0.0)]
+cases = [([1, 2, 2], 0.0), ([0.0, 1.0], -1.0), ([1.0, 2.0], 1.0), ([1.0, 2.0], 3.0), ([3.0, 2.0, 4.0], 0.0), ([1.0, 2.0, 4.0], 0.5), ([-2.0, -1.0], -3.0), ([1e-9, 3e-9, 4e-9], 0.0),
+         ([2.0], 0.5), ([5.0], -1.0), ([10.0], 9.0), ([1.0], 0.0)]          # a single readout, with and without a shifted start
 for times, start in cases:
     t = np.array(times, dtype=float)
     valid = t[0] != 0 and start < t[0] and bool(np.all(np.diff(t) > 0))
